@@ -62,11 +62,17 @@ def label_text_nodes(spelling):
     """Inline nodes for a label used as link text (collapsed / shortcut forms): words, tab and line break kept."""
     out = []
     parts = re.split(r'(\n)', spelling)
-    for part in parts:
+    for k, part in enumerate(parts):
         if part == '\n':
             out.append(('soft',))
         elif part:
-            out.append(('literal', part))
+            # 6.7 / 6.8: spaces at the end of a line and at the start of the next one are not part of the text
+            shown = part
+            if k + 1 < len(parts):
+                shown = shown.rstrip(' \t') if shown.rstrip(' \t') != shown and not shown.endswith('  ') else shown.rstrip(' \t')
+            if k > 0:
+                shown = shown.lstrip(' \t')
+            out.append(('literal', part) if shown == part else ('spaced', part, shown))
     return out
 
 
@@ -106,6 +112,12 @@ def build(rng, ndefs=None, nuses=None, skeleton=None):
                 d.dest, d.angle = gen.RICH_DESTS[rng.randrange(len(gen.RICH_DESTS))] + '%d' % i, rng.random() < 0.3
             d.dest_md, d.title_md = gen.spell_tail(rng, d.dest, d.title, d.tq, d.angle, True)
             d.spelled = True
+        if ' ' in label and '\t' not in label and rng.random() < 0.3:
+            # the label of the definition spans two lines, with white space of any kind around the line ending (it all collapses)
+            a, b = label.split(' ', 1)
+            d.label_md = a + rng.choice(('\n', ' \n', '\n  ', '  \n ', '\t\n', '\n   ')) + b.strip()
+        d.dest_nl = rng.random() < 0.12
+        d.lazy_tail = rng.random() < 0.4
         places = list(lists_of(blocks))
         L, path = rng.choice(places)
         pos = rng.randint(0, len(L))
@@ -136,6 +148,8 @@ def build(rng, ndefs=None, nuses=None, skeleton=None):
             spelling = 'fake%d' % rng.randint(0, 1)       # never defined: the near-definitions above define nothing
         if spelling in BREAKABLE and rng.random() < 0.3 and p.kind != 'atx':
             spelling = BREAKABLE[spelling]
+            if rng.random() < 0.4:
+                spelling = spelling.replace('\n', rng.choice((' \n', '\n  ', ' \n ')))        # (one space: two would be a hard break; no tab: 6.8 speaks of spaces)        # white space next to the line ending collapses with it
         form = rng.choice(('full', 'collapsed', 'shortcut'))
         image = rng.random() < 0.2
         text = gen.word(rng) + ' ' + gen.word(rng)
@@ -191,18 +205,24 @@ _atom_md, _atom_html, _atom_plain = gen.atom_md, gen.atom_html, gen.atom_plain
 def _md(nd):
     if nd[0] == 'glued':
         return _md(nd[1]) + _md(nd[2])
+    if nd[0] == 'spaced':
+        return nd[1]
     return nd[1] if nd[0] == 'literal_md' else _atom_md(nd)
 
 
 def _html(nd):
     if nd[0] == 'glued':
         return _html(nd[1]) + _html(nd[2])
+    if nd[0] == 'spaced':
+        return gen.esc(nd[2])
     return gen.esc(nd[1]) if nd[0] == 'literal_md' else _atom_html(nd)
 
 
 def _plain(nd):
     if nd[0] == 'glued':
         return _plain(nd[1]) + _plain(nd[2])
+    if nd[0] == 'spaced':
+        return nd[2]
     return nd[1] if nd[0] == 'literal_md' else _atom_plain(nd)
 
 
